@@ -152,4 +152,118 @@ theorem column_spec (a b c d k0 k1 k2 k3 : UInt8) :
       (x _ _ (x _ _ (x _ _ ga.2 hb) hc) gd.1) k1.toNat_lt k2.toNat_lt k3.toNat_lt]
   simp only [UInt8.toNat_xor, gmul_toNat2, gmul_toNat3, sbox_toNat]
 
+
+/-! ### one full round on an explicit state -/
+
+/-- the four state words of a 16-byte state (column c = bytes 4c … 4c+3, big-endian in the word) -/
+def wordsOf : List UInt8 → List Nat
+  | a :: b :: c :: d :: rest => wordB a b c d :: wordsOf rest
+  | _ => []
+
+theorem byteOf_wordB (a b c d : UInt8) :
+    Model.byteOf (wordB a b c d) 24 = a.toNat ∧ Model.byteOf (wordB a b c d) 16 = b.toNat ∧
+    Model.byteOf (wordB a b c d) 8 = c.toNat ∧ Model.byteOf (wordB a b c d) 0 = d.toNat :=
+  byteOf_word _ _ _ _ a.toNat_lt b.toNat_lt c.toNat_lt d.toNat_lt
+
+theorem colWord_spec (K : List Nat) (r i : Nat) (t : List Nat)
+    (a a1 a2 a3 b b0 b2 b3 c c0 c1 c3 d d0 d1 d2 k0 k1 k2 k3 : UInt8)
+    (h0 : idx t i = .ok (wordB a a1 a2 a3)) (h1 : idx t ((i + 1) % 4) = .ok (wordB b0 b b2 b3))
+    (h2 : idx t ((i + 2) % 4) = .ok (wordB c0 c1 c c3)) (h3 : idx t ((i + 3) % 4) = .ok (wordB d0 d1 d2 d))
+    (hk : idx K (4*r + i) = .ok (wordB k0 k1 k2 k3)) :
+    Model.colWord Gen.T1 Gen.T2 Gen.T3 Gen.T4 K t 1 2 3 r i =
+      .ok (wordB
+        (Spec.gmul 2 (Spec.sbox a) ^^^ Spec.gmul 3 (Spec.sbox b) ^^^ Spec.sbox c ^^^ Spec.sbox d ^^^ k0)
+        (Spec.sbox a ^^^ Spec.gmul 2 (Spec.sbox b) ^^^ Spec.gmul 3 (Spec.sbox c) ^^^ Spec.sbox d ^^^ k1)
+        (Spec.sbox a ^^^ Spec.sbox b ^^^ Spec.gmul 2 (Spec.sbox c) ^^^ Spec.gmul 3 (Spec.sbox d) ^^^ k2)
+        (Spec.gmul 3 (Spec.sbox a) ^^^ Spec.sbox b ^^^ Spec.sbox c ^^^ Spec.gmul 2 (Spec.sbox d) ^^^ k3)) := by
+  have := column_spec a b c d k0 k1 k2 k3
+  simp only [bind, Except.bind, pure, Except.pure] at this
+  simp only [Model.colWord, h0, h1, h2, h3, hk, bind, Except.bind, pure, Except.pure,
+    (byteOf_wordB a a1 a2 a3).1, (byteOf_wordB b0 b b2 b3).2.1, (byteOf_wordB c0 c1 c c3).2.2.1,
+    (byteOf_wordB d0 d1 d2 d).2.2.2]
+  exact this
+
+theorem roundStep_spec (K : List Nat) (r : Nat)
+    (s0 s1 s2 s3 s4 s5 s6 s7 s8 s9 s10 s11 s12 s13 s14 s15 : UInt8)
+    (k0 k1 k2 k3 k4 k5 k6 k7 k8 k9 k10 k11 k12 k13 k14 k15 : UInt8)
+    (hk0 : idx K (4*r + 0) = .ok (wordB k0 k1 k2 k3)) (hk1 : idx K (4*r + 1) = .ok (wordB k4 k5 k6 k7))
+    (hk2 : idx K (4*r + 2) = .ok (wordB k8 k9 k10 k11)) (hk3 : idx K (4*r + 3) = .ok (wordB k12 k13 k14 k15)) :
+    Model.roundStep Gen.T1 Gen.T2 Gen.T3 Gen.T4 K 1 2 3
+        (wordsOf [s0, s1, s2, s3, s4, s5, s6, s7, s8, s9, s10, s11, s12, s13, s14, s15]) r =
+      .ok (wordsOf (Spec.addRoundKey (Spec.mixColumns (Spec.shiftRows (Spec.subBytes
+        [s0, s1, s2, s3, s4, s5, s6, s7, s8, s9, s10, s11, s12, s13, s14, s15])))
+        [k0, k1, k2, k3, k4, k5, k6, k7, k8, k9, k10, k11, k12, k13, k14, k15])) := by
+  have c0 := colWord_spec K r 0 (wordsOf [s0, s1, s2, s3, s4, s5, s6, s7, s8, s9, s10, s11, s12, s13, s14, s15])
+    s0 s1 s2 s3 s5 s4 s6 s7 s10 s8 s9 s11 s15 s12 s13 s14 k0 k1 k2 k3 rfl rfl rfl rfl hk0
+  have c1 := colWord_spec K r 1 (wordsOf [s0, s1, s2, s3, s4, s5, s6, s7, s8, s9, s10, s11, s12, s13, s14, s15])
+    s4 s5 s6 s7 s9 s8 s10 s11 s14 s12 s13 s15 s3 s0 s1 s2 k4 k5 k6 k7 rfl rfl rfl rfl hk1
+  have c2 := colWord_spec K r 2 (wordsOf [s0, s1, s2, s3, s4, s5, s6, s7, s8, s9, s10, s11, s12, s13, s14, s15])
+    s8 s9 s10 s11 s13 s12 s14 s15 s2 s0 s1 s3 s7 s4 s5 s6 k8 k9 k10 k11 rfl rfl rfl rfl hk2
+  have c3 := colWord_spec K r 3 (wordsOf [s0, s1, s2, s3, s4, s5, s6, s7, s8, s9, s10, s11, s12, s13, s14, s15])
+    s12 s13 s14 s15 s1 s0 s2 s3 s6 s4 s5 s7 s11 s8 s9 s10 k12 k13 k14 k15 rfl rfl rfl rfl hk3
+  simp only [Model.roundStep, show List.range 4 = [0, 1, 2, 3] from rfl, List.mapM_cons, List.mapM_nil, c0, c1, c2, c3,
+    bind, Except.bind, pure, Except.pure]
+  simp [Spec.addRoundKey, Spec.mixColumns, Spec.shiftRows, Spec.subBytes, Spec.at_, xorBytes, wordsOf,
+    List.range_succ]
+
+
+/-! ### first key addition and last round -/
+
+theorem ofNat_xor8 (a b : Nat) : UInt8.ofNat (a ^^^ b) = UInt8.ofNat a ^^^ UInt8.ofNat b := by
+  apply UInt8.toNat_inj.mp
+  rw [UInt8.toNat_xor, UInt8.toNat_ofNat', UInt8.toNat_ofNat', UInt8.toNat_ofNat']
+  exact Nat.xor_mod_two_pow (n := 8)
+
+theorem wordB_xor (a b c d e f g h : UInt8) :
+    wordB a b c d ^^^ wordB e f g h = wordB (a ^^^ e) (b ^^^ f) (c ^^^ g) (d ^^^ h) := by
+  simp only [wordB, UInt8.toNat_xor]
+  exact word_xor _ _ _ _ _ _ _ _ b.toNat_lt c.toNat_lt d.toNat_lt f.toNat_lt g.toNat_lt h.toNat_lt
+
+theorem firstStep_spec (K : List Nat)
+    (b0 b1 b2 b3 b4 b5 b6 b7 b8 b9 b10 b11 b12 b13 b14 b15 : UInt8)
+    (k0 k1 k2 k3 k4 k5 k6 k7 k8 k9 k10 k11 k12 k13 k14 k15 : UInt8)
+    (hk0 : idx K 0 = .ok (wordB k0 k1 k2 k3)) (hk1 : idx K 1 = .ok (wordB k4 k5 k6 k7))
+    (hk2 : idx K 2 = .ok (wordB k8 k9 k10 k11)) (hk3 : idx K 3 = .ok (wordB k12 k13 k14 k15)) :
+    Model.firstStep K [b0, b1, b2, b3, b4, b5, b6, b7, b8, b9, b10, b11, b12, b13, b14, b15] =
+      .ok (wordsOf (Spec.addRoundKey [b0, b1, b2, b3, b4, b5, b6, b7, b8, b9, b10, b11, b12, b13, b14, b15]
+        [k0, k1, k2, k3, k4, k5, k6, k7, k8, k9, k10, k11, k12, k13, k14, k15])) := by
+  have w : ∀ (a b c d : UInt8), (a.toNat <<< 24) ||| (b.toNat <<< 16) ||| (c.toNat <<< 8) ||| d.toNat = wordB a b c d :=
+    fun _ _ _ _ => rfl
+  simp only [Model.firstStep, show List.range 4 = [0, 1, 2, 3] from rfl, List.mapM_cons, List.mapM_nil,
+    hk0, hk1, hk2, hk3, bind, Except.bind, pure, Except.pure]
+  simp only [Model.wordAt, idx, bind, Except.bind, pure, Except.pure, Except.map,
+    List.getElem?_cons_succ, List.getElem?_cons_zero, w, wordB_xor]
+  simp [Spec.addRoundKey, xorBytes, wordsOf]
+  rw [w, wordB_xor]
+
+theorem low_xor (s w : Nat) (hs : s < 256) : (s ^^^ w) &&& 0xFF = s ^^^ (w % 256) := by
+  have h := Nat.and_two_pow_sub_one_eq_mod (s ^^^ w) 8
+  have hx := @Nat.xor_mod_two_pow s w 8
+  rw [show (2:Nat) ^ 8 = 256 from rfl] at hx
+  rw [show (0xFF : Nat) = 2 ^ 8 - 1 from rfl, h, show (2:Nat) ^ 8 = 256 from rfl, hx, Nat.mod_eq_of_lt hs]
+
+theorem shr_bytes (a b c d : UInt8) :
+    (wordB a b c d >>> 24) % 256 = a.toNat ∧ (wordB a b c d >>> 16) % 256 = b.toNat ∧
+    (wordB a b c d >>> 8) % 256 = c.toNat ∧ (wordB a b c d) % 256 = d.toNat := by
+  obtain ⟨h1, h2, h3, h4⟩ := byteOf_wordB a b c d
+  simp only [byteOf_eq, Nat.pow_zero, Nat.div_one] at h1 h2 h3 h4
+  simp only [Nat.shiftRight_eq_div_pow]
+  exact ⟨h1, h2, h3, h4⟩
+
+theorem lastCol_spec (K : List Nat) (rounds i : Nat) (t : List Nat)
+    (a a1 a2 a3 b b0 b2 b3 c c0 c1 c3 d d0 d1 d2 k0 k1 k2 k3 : UInt8)
+    (h0 : idx t i = .ok (wordB a a1 a2 a3)) (h1 : idx t ((i + 1) % 4) = .ok (wordB b0 b b2 b3))
+    (h2 : idx t ((i + 2) % 4) = .ok (wordB c0 c1 c c3)) (h3 : idx t ((i + 3) % 4) = .ok (wordB d0 d1 d2 d))
+    (hk : idx K (4*rounds + i) = .ok (wordB k0 k1 k2 k3)) :
+    (Model.lastCol Gen.S K t 1 2 3 rounds i).map (fun l => l.map UInt8.ofNat) =
+      .ok [Spec.sbox a ^^^ k0, Spec.sbox b ^^^ k1, Spec.sbox c ^^^ k2, Spec.sbox d ^^^ k3] := by
+  obtain ⟨e1, e2, e3, e4⟩ := shr_bytes k0 k1 k2 k3
+  simp only [Model.lastCol, h0, h1, h2, h3, hk, bind, Except.bind, pure, Except.pure, Except.map,
+    (byteOf_wordB a a1 a2 a3).1, (byteOf_wordB b0 b b2 b3).2.1, (byteOf_wordB c0 c1 c c3).2.2.1,
+    (byteOf_wordB d0 d1 d2 d).2.2.2, S_lookup _ a.toNat_lt, S_lookup _ b.toNat_lt, S_lookup _ c.toNat_lt,
+    S_lookup _ d.toNat_lt, low_xor _ _ (sboxN_lt _ a.toNat_lt), low_xor _ _ (sboxN_lt _ b.toNat_lt),
+    low_xor _ _ (sboxN_lt _ c.toNat_lt), low_xor _ _ (sboxN_lt _ d.toNat_lt), e1, e2, e3, e4,
+    List.map_cons, List.map_nil, ofNat_xor8, Spec.sbox]
+  simp
+
 end Tls.Crypto.Aes
